@@ -194,6 +194,11 @@ func (g *Gen) addObl(kind, label, goal string, pos token.Pos, desc string, cl *C
 		name += "[" + label + "]"
 	}
 	o := &Obligation{Name: name, Kind: kind, Goal: goal, NFacts: len(g.facts), Pos: g.prog.Prog.Fset.Position(pos), Desc: desc, Clause: cl, Gen: g, FuncKey: g.key, Mode: g.fmode, Props: g.con.Props}
+	if only := g.con.Opts["only"]; only != "" && kind != only && kind != "cover" {
+		// a variant that looks at one kind of obligation only (e.g. lock-order): the others belong
+		// to the function's main contract and are not generated twice
+		return o
+	}
 	g.obls = append(g.obls, o)
 	return o
 }
@@ -693,7 +698,12 @@ func (g *Gen) entryState(b *ssa.BasicBlock, init *State) (*State, string) {
 		k := k
 		gv := g.cs.Ghosts[k]
 		v, _ := mergeTerm(func(s *State) (string, bool) { return g.ghostGet(s, k), true },
-			func() string { return g.sortOf(g.resolveType(gv.Type, g.pkgTypes())) }, "mgh."+k)
+			func() string {
+				if strings.HasPrefix(k, "lock.held.") {
+					return "Bool"
+				}
+				return g.sortOf(g.resolveType(gv.Type, g.pkgTypes()))
+			}, "mgh."+k)
 		merged.ghost[k] = v
 	}
 	v, _ := mergeTerm(func(s *State) (string, bool) { return s.alloc, true }, func() string { return "Int" }, "m.alloc")
@@ -724,6 +734,9 @@ func (g *Gen) entryState(b *ssa.BasicBlock, init *State) (*State, string) {
 func (g *Gen) ghostGet(st *State, name string) string {
 	if v, ok := st.ghost[name]; ok {
 		return v
+	}
+	if strings.HasPrefix(name, "lock.held.") {
+		return "false" // no lock of the function's order is held on entry (callers are not tracked)
 	}
 	gv := g.cs.Ghosts[name]
 	n := "ghost0." + sanitize(name)
